@@ -15,8 +15,12 @@ impl Rng {
     }
     /// generator for case `index` under `seed` (independent streams)
     pub fn for_case(seed: u64, index: u64) -> Self {
-        let mut r = Self(seed ^ 0x9E37_79B9_7F4A_7C15u64.wrapping_mul(index.wrapping_add(1)));
-        r.next();
+        // fully mix (seed, index) so that neighbouring indices give unrelated streams
+        let mut z = seed.wrapping_mul(0xD6E8_FEB8_6659_FD93) ^ index.wrapping_mul(0xA076_1D64_78BD_642F).rotate_left(32);
+        z = (z ^ (z >> 30)).wrapping_mul(0xBF58_476D_1CE4_E5B9);
+        z = (z ^ (z >> 27)).wrapping_mul(0x94D0_49BB_1331_11EB);
+        z ^= z >> 31;
+        let mut r = Self(z);
         r.next();
         r
     }
